@@ -301,7 +301,12 @@ def install(rec):
                     ok = abs(complex(np.asarray(to_numpy(out))) - tot) <= tol
                 except Exception:
                     return
-            rec.check("expectation", "value", ok, mech=f"expectation:{entry}:sum_of_terms",
+            mech = f"expectation:{entry}:sum_of_terms"
+            if k.get("equalize_norms") and (not normalized or ret_all) and "2D" in entry:
+                # its own mechanism: the scale stripped into the exponents of the
+                # boundary environments (known finding, see known_findings.json)
+                mech = f"expectation:{entry}:unnormalized_value_with_equalize_norms"
+            rec.check("expectation", "value", ok, mech=mech,
                       detail={"n": len(terms), "return_all": bool(ret_all), "normalized": bool(normalized),
                               "kw": sorted(k)[:8]}, sig=(entry, len(terms), bool(ret_all), bool(normalized)))
         return post
@@ -540,7 +545,26 @@ def wl_routes(rng, rec, tier):
             gen.attempt(y.gauge_all_simple_, 100, 1e-10, gauges=gauges)
             kw["gauges"] = gauges
             f = y.local_expectation_sloop_expand if route == "sloop" else y.local_expectation_gloop_expand
-            gen.attempt(f, G, where, **kw)
+            if rng.random() < 0.4:
+                # one record shared between calls with different operators
+                # (the record is a cache: it must not change any answer)
+                kw["info"] = {}
+                gen.attempt(f, G, where, **kw)
+                G2 = rand_op(rng, x, where)
+                r_shared = gen.attempt2(f, G2, where, **kw)
+                r_fresh = gen.attempt2(f, G2, where, **dict(kw, info={}))
+                if r_shared is not gen.REJECTED and r_fresh is not gen.REJECTED:
+                    try:
+                        a_, b_ = complex(np.asarray(to_numpy(r_shared))), complex(np.asarray(to_numpy(r_fresh)))
+                        sc_ = max(abs(a_), abs(b_), 1e-300)
+                        rec.check("expectation", "info_is_a_cache", abs(a_ - b_) <= 1e-8 * sc_,
+                                  mech=f"expectation:local_expectation_{route}_expand:info_cache_changes_result",
+                                  detail={"shared": repr(a_), "fresh": repr(b_), "where": repr(where)},
+                                  sig=("info_cache", route, len(where)))
+                    except Exception:
+                        pass
+            else:
+                gen.attempt(f, G, where, **kw)
         else:
             terms = {where: G}
             w2 = rand_where(rng, x, 1)
@@ -566,7 +590,64 @@ def wl_lattice(rng, rec, tier):
         if not terms:
             terms[(0,)] = gen.rand_array(rng, (2, 2), "complex128")
         kw = {"normalized": bool(rng.random() < 0.7), "return_all": bool(rng.random() < 0.5)}
-        m = gen.choice(rng, ["envs", "canonical", "dispatch", "canonical_info"])
+        m = gen.choice(rng, ["envs", "canonical", "dispatch", "canonical_info", "ptr_compress"])
+        if m == "ptr_compress":
+            # reduced state of two blocks in a compressed basis: basis independent
+            # facts (trace / requested normalisation, spectrum) vs the dense state
+            from ..core import dense_of
+            cuts = sorted(int(c) for c in rng.choice(np.arange(0, L + 1), size=min(4, L + 1), replace=False))
+            while len(cuts) < 4:
+                cuts.append(cuts[-1])
+            a0, a1, b0, b1 = cuts
+            if rng.random() < 0.4:
+                a0, a1, b0, b1 = 0, max(1, min(L - 1, a1 or 1)), max(1, min(L - 1, a1 or 1)), L   # full bipartition
+            sysa, sysb = list(range(a0, a1)), list(range(b0, b1))
+            if not sysa or not sysb:
+                return {"kind": "mps", "L": L, "m": m, "skipped": True}
+            renorm = bool(rng.random() < 0.6)
+            rho = gen.attempt2(x.partial_trace_compress, sysa, sysb, eps=1e-13, renorm=renorm)
+            if rho is gen.REJECTED:
+                return {"kind": "mps", "L": L, "m": m, "rejected": True}
+            rec.busy = True
+            try:
+                r = dense_of(x, [x.site_ind(i) for i in range(L)], max_size=1 << 13)
+                got = rho.to_dense(["kA", "kB"], ["bA", "bB"]) if hasattr(rho, "to_dense") else None
+            except Exception:
+                r = got = None
+            finally:
+                rec.busy = False
+            if r is None or got is None:
+                return {"kind": "mps", "L": L, "m": m, "unreferenced": True}
+            v = np.asarray(r[0], dtype=complex).reshape([2] * L)
+            keep = sysa + sysb
+            rest = [i for i in range(L) if i not in keep]
+            mat = np.transpose(v, keep + rest).reshape(2 ** len(keep), -1)
+            want = mat @ mat.conj().T
+            nrm = float(np.trace(want).real)
+            if nrm <= 1e-12:
+                return {"kind": "mps", "L": L, "m": m, "zero": True}
+            if renorm:
+                want = want / nrm
+            got = np.asarray(to_numpy(got), dtype=complex)
+            tr_ok = abs(np.trace(got) - np.trace(want)) <= 1e-7 * max(abs(np.trace(want)), 1e-300)
+            ev_g = np.sort(np.linalg.eigvalsh((got + got.conj().T) / 2))[::-1]
+            ev_w = np.sort(np.linalg.eigvalsh(want))[::-1]
+            kk = min(len(ev_g), len(ev_w))
+            sp_ok = float(np.abs(ev_g[:kk] - ev_w[:kk]).max()) <= 1e-7 * max(ev_w[0], 1e-300) and \
+                float(np.abs(ev_w[kk:]).sum()) <= 1e-7 * max(ev_w[0], 1e-300)
+            herm = float(np.abs(got - got.conj().T).max()) <= 1e-9 * max(float(np.abs(got).max()), 1e-300)
+            full = len(keep) == L
+            rec.check("rdm", "partial_trace_compress", bool(tr_ok),
+                      mech="rdm:partial_trace_compress:" + ("not_renormalised" if renorm else "trace"),
+                      detail={"trace": repr(complex(np.trace(got))), "want": repr(complex(np.trace(want))),
+                              "sysa": sysa, "sysb": sysb, "renorm": renorm, "full_bipartition": full},
+                      sig=("ptrc", "trace", renorm, full))
+            rec.check("rdm", "partial_trace_compress", bool(sp_ok and herm) or not tr_ok,
+                      mech="rdm:partial_trace_compress:spectrum",
+                      detail={"got": [float(e) for e in ev_g[:4]], "want": [float(e) for e in ev_w[:4]],
+                              "sysa": sysa, "sysb": sysb, "renorm": renorm},
+                      sig=("ptrc", "spectrum", renorm, full))
+            return {"kind": "mps", "L": L, "m": m, "sysa": sysa, "sysb": sysb, "renorm": renorm}
         if m == "envs":
             gen.attempt(x.compute_local_expectation_via_envs, terms, **kw)
         elif m == "canonical":
@@ -604,6 +685,8 @@ def wl_lattice(rng, rec, tier):
         kw["autogroup"] = bool(rng.random() < 0.5)
     if rng.random() < 0.3:
         kw["mode"] = gen.choice(rng, ["mps", "full-bond"])
+    if rng.random() < 0.25:
+        kw["equalize_norms"] = gen.choice(rng, [True, 1.0])
     gen.attempt(x.compute_local_expectation, terms, **kw)
     if rng.random() < 0.3:
         gen.attempt(x.compute_norm, max_bond=kw["max_bond"], cutoff=0.0)
